@@ -72,8 +72,9 @@ def generate(rng, tier):
         chain.append((op, arg))
     return {"items": items, "chain": chain}
 
-PREDS = {"a_is_1": lambda x: x["a"] == 1, "b_none": lambda x: x["b"] is None, "tag_even": lambda x: x["_tag_"] % 2 == 0, "has_c": lambda x: "c" in x}
-MODS = {"double_tag": ("t2", lambda x: x["_tag_"] * 2), "set_flag": ("a", lambda x: -1)}
+PREDS = {"a_is_1": lambda x: x.get("a") == 1, "b_none": lambda x: x.get("b") is None,
+         "tag_even": lambda x: isinstance(x.get("_tag_"), int) and x["_tag_"] % 2 == 0, "has_c": lambda x: "c" in x}
+MODS = {"double_tag": ("t2", lambda x: (x.get("_tag_") or 0) * 2), "set_flag": ("a", lambda x: -1)}
 
 def _cmp_key(k, dir):
     def cmp(x, y):
